@@ -234,7 +234,7 @@ func Gen(t *rapid.T) Plan {
 	}
 
 	p.Latency = rapid.SliceOfN(rapid.SampledFrom([]int{0, 0, 0, 1, 10, 100}), 1, 6).Draw(t, "latency")
-	p.Deliv = rapid.SliceOfN(rapid.SampledFrom([]int{0, 0, 0, 5, 200, 700}), 1, 6).Draw(t, "deliv")
+	p.Deliv = rapid.SliceOfN(rapid.SampledFrom([]int{0, 0, 0, 5, 200, 700, -5, -200, -700}), 1, 6).Draw(t, "deliv")
 
 	return p
 }
